@@ -1,5 +1,5 @@
 """C09 - SAN output is standard; SAN input resolves only to the legal move it describes."""
-from . import sanrules, outcomerules
+from . import sanrules, outcomerules, textrules
 
 
 def run(ctx):
@@ -26,3 +26,10 @@ def run(ctx):
         "generator except castling (a position whose only reply comes from a dropped emitter would be printed as mate) (= C07/O3 re-run)",
     ]
     outcomerules.has_legal_moves_rule(ctx, facts, "S5")
+    ctx.decided += [
+        "S6 the text level: the model of Display for san::Move, evaluated on castling, pawn moves and captures (promotions on the last ranks), "
+        "piece moves with all 81 combinations of origin hints x capture mark (quick: 5 destinations, thorough: all 64) and each check mark, "
+        "writes standard algebraic notation (letter, hints file-then-rank, x, square, =Q, O-O/O-O-O, +/#), and the model of FromStr reads "
+        "every such text back as the same value - so what from_move produces is what from_str hands to into_move",
+    ]
+    textrules.san_text_rule(ctx, facts, "S6", ctx.tier == "thorough")
